@@ -5,7 +5,9 @@ import json, os, re, subprocess
 ROOT = os.path.dirname(os.path.dirname(os.path.abspath(__file__)))
 RULES = [
  (r"^fix: C interface", "C20"),
- (r"generator_widening_assign", "C08"),
+ (r"generator_widening_assign|Certificate::compare", "C08"),
+ (r"BD_Shape limited extrapolations divided by zero|CC76_widening_assign\(\) did not check the dimension|map_space_dimensions\(\) of an empty powerset", "C20"),
+ (r"update_generators\(\)/update_constraints\(\) cut short", "C14"),
  (r"set the status to optimized before a copy|lost its integer variables when the temporary relaxation", "C14"),
  (r"Box::generalized_affine_image\(lhs", "C04"),
  (r"aliased operands", "C16"),
